@@ -142,7 +142,12 @@ func runC03(r *core.Run) {
 			q := Req{Image: img, OutDir: "endorsements", Candidate: fmt.Sprintf("cand%d", len(all)), SNP: true, Timestamp: a.Now.Add(-time.Duration(r.Intn(3600, "doc-age-s")) * time.Second),
 				Retries: 1, ViaCLI: cfg.ViaCLI && r.Bool("endorse-via-cli")}
 			if r.Bool("provenance-commit") {
-				q.Commit = bytes.Repeat([]byte{byte(1 + r.Intn(200, "commit-byte"))}, 20)
+				n := 20
+				if !q.ViaCLI {
+					// the command line only takes 20 bytes; the library signs whatever commit it is given
+					n = []int{20, 20, 32, 1, 64}[r.Intn(5, "commit-len")]
+				}
+				q.Commit = bytes.Repeat([]byte{byte(1 + r.Intn(200, "commit-byte"))}, n)
 			} else {
 				q.ClSpec = uint64(1 + r.Intn(1<<20, "clspec"))
 			}
